@@ -233,6 +233,16 @@ func c18RuleTerm(ru *parser.Rule) string {
 
 func c18OptStr(ok bool, s string) string { return coqOpt(ok, coqStr(s)) }
 
+// c18Text prints a template text whose alias prefix is the model's own constant (AL := aliases in the preamble): the
+// case files get much smaller.  The template cases keep ONE literal copy per case (c_parse), so a difference between
+// this harness's alias text and the model's still shows up as "oracle-table-incomplete".
+func c18Text(text string) string {
+	if strings.HasPrefix(text, c18Aliases) {
+		return "(AL ++ " + coqStr(strings.TrimPrefix(text, c18Aliases)) + ")%string"
+	}
+	return coqStr(text)
+}
+
 func c18MustExpand(tr *checks.TemplatedRegexp, ru parser.Rule, out *string) (msg string) {
 	defer func() {
 		if r := recover(); r != nil {
@@ -327,7 +337,7 @@ func c18Templates(r *rand.Rand, rep *runReport, cw *caseWriter, cwd string, n in
 					"c_parse := [%s]; c_exec := [%s]; c_compile := %s; c_obs_new_ok := %s; c_obs_expand := %s; c_obs_must := %s; c_block := None |}",
 					coqN(*id), coqBool(raw), coqStr(pat), c18RuleTerm(&ru), coqStr(ctx.Alert), coqStr(ctx.Record), coqStr(ctx.Expr), coqStr(ctx.For), c18CoqPairs(ctx.Labels), c18CoqPairs(ctx.Annotations),
 					coqPair(coqStr(text), coqBool(parses)),
-					coqPair(coqStr(text), coqPair(c18OptStr(okE, outE), c18OptStr(okR, outR))),
+					coqPair(c18Text(text), coqPair(c18OptStr(okE, outE), c18OptStr(okR, outR))),
 					coqList(ct), coqBool(nerr == nil), c18OptStr(obsExpandOK, obsExpand), coqStr(obsMust))
 				cw.add(term)
 				uses := strings.Contains(pat, "{{")
@@ -427,7 +437,11 @@ func c18Blocks(r *rand.Rand, rep *runReport, cw *caseWriter, cwd string, n int, 
 				rep.fail(fmt.Sprintf("block-%s-%d", kind, ti), "parseRule crashed while building the checks of a rule block: "+msg, map[string]any{"kind": kind, "key": tp.key, "token": tp.token, "value": tp.value, "validate_ok": valid})
 				continue
 			}
-			for _, ei := range []int{0, (ti*7 + ki) % len(ents)} {
+			eis := []int{(ti*7 + ki) % len(ents)}
+			if ti%2 == 0 {
+				eis = append(eis, 0)
+			}
+			for _, ei := range eis {
 				ent := ents[ei]
 				str, strOK, checkOK := "", true, true
 				var crash string
@@ -464,8 +478,8 @@ func c18Blocks(r *rand.Rand, rep *runReport, cw *caseWriter, cwd string, n int, 
 					seen[text] = true
 					outE, parses, okE := c18Exec(text, c18Ctx{})
 					outR, _, okR := c18Exec(text, mc)
-					parse = append(parse, coqPair(coqStr(text), coqBool(parses)))
-					exec = append(exec, coqPair(coqStr(text), coqPair(c18OptStr(okE, outE), c18OptStr(okR, outR))))
+					parse = append(parse, coqPair(c18Text(text), coqBool(parses)))
+					exec = append(exec, coqPair(c18Text(text), coqPair(c18OptStr(okE, outE), c18OptStr(okR, outR))))
 					for _, s := range []string{outE, outR} {
 						_, err := regexp.Compile(s)
 						compile[s] = err == nil
@@ -1178,7 +1192,7 @@ func runC18(args []string) int {
 	scQuiet()
 	cwd, _ := os.Getwd()
 	cw := newCaseWriter(cwd, "Run.C18", 60)
-	cw.preamble = "Open Scope N_scope.\n"
+	cw.preamble = "Open Scope N_scope.\nDefinition AL := aliases.\n"
 	id := 0
 	// search mode (something is already broken, a failing INPUT is wanted): the template correspondence cases are skipped,
 	// the whole budget goes to configurations run through the binary
